@@ -291,12 +291,23 @@ func (c *recConn) SetDeadline(time.Time) error      { return nil }
 func (c *recConn) SetReadDeadline(time.Time) error  { return nil }
 func (c *recConn) SetWriteDeadline(time.Time) error { return nil }
 
+// publishedPrefixes: the bytes of each prefix id as released (pinned here like the golden digests: station and in-tree
+// client read one table, so a change to it moves both sides together and only a pinned copy can tell).
+var publishedPrefixes = map[int32]string{
+	0: "", 1: "GET / HTTP/1.1\r\n", 2: "POST / HTTP/1.1\r\n", 3: "HTTP/1.1 200\r\n", 4: "\x16\x03\x03\x40\x00\x01", 5: "\x16\x03\x03\x40\x00\x02\r\n",
+	6: "\x15\x03\x01\x00\x02", 7: "\x15\x03\x02\x00\x02", 8: "\x05\xDC\x5F\xE0\x01\x20", 9: "SSH-2.0-OpenSSH_8.9p1",
+}
+
+func unhex(s string) string { b, _ := hex.DecodeString(s); return string(b) }
+
 type view struct {
 	err   string
 	ip    string
 	port  uint16
 	tag   string // hex of identifier / connection tag
 	rndOK bool
+	wire  string // client only: hex of the fixed bytes the client writes in front of its tag (prefix transport)
+	pfxID int32
 }
 
 func (v view) String() string {
@@ -434,6 +445,8 @@ func clientView(secret []byte, libver uint, v6 bool, plist *pb.PhantomSubnetsLis
 			return view{err: err.Error()}
 		}
 		v.tag = hex.EncodeToString(tag)
+		v.wire = "x" + hex.EncodeToString(b[:len(b)-64])
+		v.pfxID = int32(t.Prefix.ID())
 	case *obfs4.ClientTransport:
 		k := t.VerifKeys()
 		v.tag = hex.EncodeToString(k.PublicKey.Bytes()[:]) + hex.EncodeToString(k.NodeID.Bytes()[:])
@@ -581,6 +594,11 @@ func main() {
 								e.Violation("port-disagree:"+cls, fmt.Sprintf("%s: station %d client %d", id, S.port, C.port), map[string]any{"case": id})
 							} else if S.tag != C.tag {
 								e.Violation("secret-disagree:"+cls, fmt.Sprintf("%s: station %s client %s", id, S.tag, C.tag), map[string]any{"case": id})
+							} else if C.wire != "" {
+								// the fixed bytes in front of the tag are part of what released clients and stations agree on
+								if want, ok := publishedPrefixes[C.pfxID]; !ok || "x"+hex.EncodeToString([]byte(want)) != C.wire {
+									e.Violation(fmt.Sprintf("wire-prefix-moved:id%d", C.pfxID), fmt.Sprintf("%s: the client writes %q in front of its tag, the published prefix %d is %q", id, unhex(C.wire[1:]), C.pfxID, want), map[string]any{"case": id})
+								}
 							}
 						} else if (S.err == "") != (C.err == "") {
 							// one side fails: only a disagreement if the client side could have connected.
